@@ -13,6 +13,10 @@
      pkg/hook/controller/hook_controller.go        UpdateSnapshots
      pkg/hook/hook.go                              Run: UpdateSnapshots -> ConvertBindingContextList -> Json
 
+   and (last part) of the value the jq program is run on:
+
+     pkg/filter/jq/apply.go                        ApplyFilter: deepCopy, gojq run on the copy, merge
+
    The model follows the code AFTER the repair of F3 (Map() accepts the decoded, non-string
    filter result that applyFilter stores) and keeps everything else as it is, including
    the merge of F8 (applyFilter/jq.ApplyFilter keep only object-valued jq outputs, merged
@@ -734,3 +738,97 @@ Definition run_hook (hc : hcase) : hobs :=
   let tagged := hk_collect hc [] (hk_evs hc) in
   mkHobs (map (hk_item hc) tagged)
          (render_list V1 (hk_update_snapshots hc (map (fun p => snd (snd p)) tagged))).
+
+(* ====================================================================================
+   What gojq is given: pkg/filter/jq/apply.go.
+
+     func (f *Filter) ApplyFilter(jqFilter string, data map[string]any) (map[string]any, error) {
+         query, err := gojq.Parse(jqFilter)
+         workData := deepCopy(data)              // "gojq will normalize numbers in the input data"
+         iter := query.Run(workData)
+         result := make(map[string]any)
+         for { v, ok := iter.Next(); ...; if resultMap, ok := v.( map[string]any ); ok { maps.Copy(result, resultMap) } }
+         return result, nil }
+     func deepCopy(input map[string]any) map[string]any {
+         data, _ := json.Marshal(input); var output map[string]any; _ = json.Unmarshal(data, &output); return output }
+
+   filter.go applyFilter calls it with obj.UnstructuredContent() and stores the returned map as
+   FilterResult, while Object keeps pointing to obj: the value jq RUNS ON is the copy, the value
+   the hook SEES as `object` is the original.  The first half of this file took the output stream of
+   jq on the object as given ([Stored]'s [jqf], [w_outs]); here the jq program is a function
+   [jq_fn] of its input (gojq is an oracle: any function) and the copy is explicit.
+
+   deepCopy on the value tree: json.Marshal writes a Go map with its keys sorted and
+   json.Unmarshal builds a map again (one value per key, the last one wins); slices are
+   copied element-wise; strings, booleans and nil come back as they are (Marshal's HTML
+   escapes are undone by Unmarshal; the harness emits valid UTF-8 only).  Numbers come back as
+   float64: every integer of magnitude up to 2^53 and every float64 exactly - larger int64
+   values are outside this model (client-go decodes them as int64; jq itself computes in
+   float64).  Every member of the object is copied, whatever its name: metadata.managedFields,
+   metadata.annotations, status, ... are part of what jq runs on.
+   ==================================================================================== *)
+
+Fixpoint deep_copy (j : json) : json :=
+  match j with
+  | JArr l => JArr (map deep_copy l)
+  | JObj m => JObj (fold_left (fun acc kv => obj_set (fst kv) (deep_copy (snd kv)) acc) m [])
+  | _ => j
+  end.
+
+(* query.Run: the output stream of the binding's compiled jqFilter on an input value *)
+Definition jq_fn := json -> list json.
+
+(* jq.ApplyFilter: the merged object-valued outputs of jq on the COPY *)
+Definition jq_apply_filter (jq : jq_fn) (data : json) : list (bytes * json) := glue (jq (deep_copy data)).
+
+(* filter.go applyFilter over it: the output stream that travels with an object of the informer
+   path is the stream of the copy *)
+Definition wobj_via (jq : jq_fn) (w : wobj) : wobj :=
+  mkWobj (w_ns w) (w_name w) (w_id w) (w_obj w) (jq (deep_copy (w_obj w))).
+
+Definition stored_via (jq : jq_fn) (keep : bool) (obj : json) : item :=
+  Stored (Some (jq (deep_copy obj))) keep obj.
+
+(* ---- the jq function of a correspondence case ----
+   The harness asks the independent /usr/bin/jq ONE question per object: the binding's jqFilter
+   on the object exactly as it is created in the cluster (and as the hook must see it in `object`).
+   That answer is [outs].  Asked about any other value, this oracle has no answer; it then yields
+   an object that names the value it was given, so that a model (or code) that hands jq anything
+   but the object shows up in filterResult. *)
+Module LitJq.
+Import String.
+Local Open Scope string_scope.
+Definition k_not_the_object : bytes := Eval compute in bs "jq was run on another value than the object, namely".
+End LitJq.
+Export LitJq.
+
+Definition asked (obj : json) (outs : list json) : jq_fn :=
+  fun input => if json_eqb input obj then outs else [JObj [(k_not_the_object, input)]].
+
+(* every element / object of a case, sent through ApplyFilter's copy *)
+Definition item_run (i : item) : item :=
+  match i with
+  | Stored (Some outs) keep obj => stored_via (asked obj outs) keep obj
+  | _ => i
+  end.
+
+Definition ctx_run (c : ctx) : ctx :=
+  mkCtx (c_btype c) (c_jq c) (c_incl c) (c_incl_all c) (c_group c) (c_binding c) (c_type c) (c_wev c)
+        (map item_run (c_objects c))
+        (map (fun p => (fst p, map item_run (snd p))) (c_snapshots c))
+        (c_areview c) (c_creview c) (c_from c) (c_to c).
+
+Definition wobj_run (w : wobj) : wobj := wobj_via (asked (w_obj w) (w_outs w)) w.
+
+Definition flow_run (f : flow) : flow :=
+  mkFlow (f_version f) (f_bind f) (map wobj_run (f_initial f))
+         (map (fun op => (fst op, wobj_run (snd op))) (f_ops f)).
+
+Definition hevent_run (ev : hevent) : hevent :=
+  match ev with
+  | HWatch n t w => HWatch n t (wobj_run w)
+  | _ => ev
+  end.
+
+Definition hcase_run (hc : hcase) : hcase :=
+  mkHcase (map (fun p => (fst p, map wobj_run (snd p))) (hk_kube hc)) (hk_other hc) (map hevent_run (hk_evs hc)).
